@@ -162,11 +162,10 @@ def stepF (f : FSys) (fop : FOp) : FSys × FRes :=
   | none => stallEndF f
   | some op =>
     if f.busy op then (f, .busy)
+    -- the marker of a live holder is not stale: the lock library leaves it alone
+    else if decide (op = .breakMarker) && f.pending.isSome then (f, .res .disabled)
     else
       match fop with
-      | .base (.api .breakMarker) =>
-        if f.pending.isSome then (f, .res .disabled)
-        else ({ f with t := (stepT f.t (.api .breakMarker)).1 }, FRes.ofT (stepT f.t (.api .breakMarker)).2)
       | .base top => ({ f with t := (stepT f.t top).1 }, FRes.ofT (stepT f.t top).2)
       | .failWrite op k => ({ f with t := (failT f.t op k).1 }, .res (failT f.t op k).2)
       | .stallBegin op k => stallBeginF f op k
